@@ -55,6 +55,20 @@ class MakesHugeLen(_FloatOperation):
         return HugeLen(data.data)
 
 
+class UsesItems(_FloatOperation):
+    """an operation whose parameter is an iterable taken from the context and consumed once"""
+
+    def _process_logic(self, data, items):
+        return _FloatDataType(data.data + sum(items))
+
+
+class ClipC10(_FloatOperation):
+    """min(data, upper) with an unbounded default"""
+
+    def _process_logic(self, data, upper: float = float("inf")):
+        return _FloatDataType(min(data.data, upper))
+
+
 class RaisesNoArgs(_FloatOperation):
     def _process_logic(self, data):
         raise KeyError()
@@ -67,6 +81,13 @@ CONFIGS = [(n, nodes, ctx) for n, nodes, ctx in idlib.base_configs()] + [
     ("fail-exception-without-arguments", [{"processor": "FloatValueDataSourceWithDefault"}, {"processor": RaisesNoArgs}], {}),
     ("param-mapping-with-mixed-key-types", [{"processor": "FloatValueDataSourceWithDefault"}, {"processor": UsesTable}], {"table": {1: "a", "b": 2}}),
     ("param-not-json-serialisable", [{"processor": "FloatValueDataSourceWithDefault"}, {"processor": UsesTable}], {"table": {"k": {1, 2}, "o": object}}),
+    # context values that can be consumed only once: a context given as a callable is built afresh for every run
+    ("param-one-shot-iterator", [{"processor": "FloatValueDataSourceWithDefault"}, {"processor": UsesItems}], lambda: {"items": iter([1.0, 2.0, 3.0])}),
+    ("param-generator", [{"processor": "FloatValueDataSourceWithDefault"}, {"processor": "FloatSquareOperation"}, {"processor": UsesItems}], lambda: {"items": (x * x for x in (1.0, 2.0)), "other": map(float, (1, 2))}),
+    ("first-node-consumes-a-one-shot-iterator", [{"processor": UsesItems}, {"processor": "FloatMultiplyOperation", "parameters": {"factor": 2.0}}], lambda: (_FloatDataType(1.0), {"items": iter([1.5, 2.5, 4.0])})),
+    ("first-node-consumes-a-generator", [{"processor": UsesItems}], lambda: (_FloatDataType(1.0), {"items": (x for x in (1.5, 2.5, 4.0))})),
+    ("param-non-finite-default", [{"processor": "FloatValueDataSourceWithDefault"}, {"processor": ClipC10}], {}),
+    ("param-non-finite-from-context", [{"processor": "FloatValueDataSourceWithDefault"}, {"processor": ClipC10}], {"upper": float("nan")}),
     ("fail-unresolved", [{"processor": "FloatValueDataSourceWithDefault"}, {"processor": "FloatMultiplyOperation"}], {}),
     ("fail-type", [{"processor": "FloatValueDataSourceWithDefault"}, {"processor": "FloatCollectionSumOperation"}], {}),
     ("ctx-flow", [{"processor": "FloatValueDataSourceWithDefault"}, {"processor": "FloatCollectValueProbe", "context_key": "factor"},
@@ -78,12 +99,16 @@ CONFIGS = [(n, nodes, ctx) for n, nodes, ctx in idlib.base_configs()] + [
 def outcome(nodes, ctx, trace=None, pipeline=None):
     p = pipeline or (Pipeline(copy.deepcopy(nodes), trace=trace) if trace else Pipeline(copy.deepcopy(nodes)))
     try:
-        out = p.process(Payload(NoDataType(), ContextType(copy.deepcopy(ctx))))
+        c_ = ctx() if callable(ctx) else copy.deepcopy(ctx)
+        d_, c_ = c_ if isinstance(c_, tuple) else (NoDataType(), c_)
+        out = p.process(Payload(d_, ContextType(c_)))
         d = out.data
         val = getattr(d, "data", None)
         if isinstance(val, list):
             val = [getattr(x, "data", x) for x in val]
-        return ("ok", type(d).__name__, repr(val), sorted((k, repr(v)) for k, v in out.context.to_dict().items())), p
+        import re as _re
+        noaddr = lambda x: _re.sub(r" at 0x[0-9a-fA-F]+", "", repr(x))
+        return ("ok", type(d).__name__, repr(val), sorted((k, noaddr(v)) for k, v in out.context.to_dict().items())), p
     except BaseException as e:
         return ("raise", type(e).__name__, str(e)), p
 
@@ -165,7 +190,7 @@ for name, nodes, ctx in CONFIGS:
                              "b": json.dumps(strip(t2)[diff], sort_keys=True)[:300] if diff is not None else len(t2)})
     if len(samples) < 2:
         samples.append({"config": name, "outcome": base[:2], "records": [r["record_type"] for r in t1]})
-print(json.dumps({"bound": "15 configurations (plain, one whose data object has a raising __len__, three failing with non-JSON / wrapped / empty exception arguments, two with non-JSON parameter values (mixed key types, sets), identical nodes, 3 sweeps, unresolvable parameter, type gate, context flow with rename/delete, unknown parameter) x 4 detail levels; unrelated runs in between; 4 configurations x 2 detail levels compared with a fresh interpreter after traced runs at other detail levels",
+print(json.dumps({"bound": "23 configurations (plain, model fitting, generated classes, two whose parameters are non-finite floats, four whose context holds one-shot iterators / generators consumed by the first or a later node, one whose data object has a raising __len__, three failing with non-JSON / wrapped / empty exception arguments, two with non-JSON parameter values (mixed key types, sets), identical nodes, 3 sweeps, unresolvable parameter, type gate, context flow with rename/delete, unknown parameter) x 4 detail levels; unrelated runs in between; 4 configurations x 2 detail levels compared with a fresh interpreter after traced runs at other detail levels",
                   "evaluations": evaluations, "distinct_nontrivial": len(distinct),
                   "rule": "distinct = (configuration, detail level); outcome = returned data/context or exception type+message; traces compared after removing run_id, timestamps, timing, seq",
                   "failures": failures[:20], "samples": samples}, default=str))
